@@ -447,6 +447,7 @@ func (ps *parser) typeText() string {
 type Clause struct {
 	Kind  string // requires, ensures, invariant, decreases, modifies, assume, assert
 	Loop  int    // for loop clauses (1-based)
+	Ret   int    // ensures clauses restricted to the Ret-th return statement (source order), 0 = all
 	Props []string
 	Text  string
 	E     Expr
@@ -478,6 +479,7 @@ type Contract struct {
 	Modifies []string // heap names or "*" patterns; nil means pure (nothing pre-existing modified)
 	ModItems []*ModItem
 	ModAll   bool
+	NReturns int // if > 0: the function must have exactly this many return statements
 	Flags    map[string]bool
 	Panics   bool
 	File     string
@@ -823,6 +825,35 @@ func (ss *SpecSet) parseSpecText(file, pkgPath, text string) {
 				errf(ln, "%s outside a contract", word)
 				continue
 			}
+			last = cl
+		case "returns":
+			if cur != nil {
+				n, err := strconv.Atoi(strings.TrimSpace(rest))
+				if err != nil {
+					errf(ln, "bad returns count")
+					continue
+				}
+				cur.NReturns = n
+			}
+		case "return":
+			// //@ return N ensures E : postcondition of the N-th return statement only
+			finish()
+			if cur == nil {
+				errf(ln, "return clause outside a contract")
+				continue
+			}
+			fs := strings.SplitN(rest, " ", 3)
+			if len(fs) < 3 || fs[1] != "ensures" {
+				errf(ln, "bad return clause")
+				continue
+			}
+			n, err := strconv.Atoi(fs[0])
+			if err != nil {
+				errf(ln, "bad return clause %q", rest)
+				continue
+			}
+			cl := &Clause{Kind: "ensures", Ret: n, Text: fs[2], Props: props, Line: ln + 1, File: file}
+			cur.Clauses = append(cur.Clauses, cl)
 			last = cl
 		case "loop":
 			finish()
